@@ -38,7 +38,16 @@ type cfgKnown struct {
 	Note    string `json:"note"`
 }
 
+type cfgKnownEdge struct {
+	From    string `json:"from"`
+	To      string `json:"to"`
+	Finding string `json:"finding"`
+	Note    string `json:"note"`
+}
+
 type config struct {
+	// KnownEdges are reported lock-order findings of the current tree.
+	KnownEdges []cfgKnownEdge `json:"known_edges"`
 	Packages []string  `json:"packages"`
 	Roots    []cfgRoot `json:"roots"`
 	// InitFuncs run before the objects they touch are shared with other
@@ -172,6 +181,9 @@ type analysis struct {
 	uncovered    map[string]int
 	errs         []string
 	collecting   bool
+	litCallees   map[string]int
+	addrTaken    map[string]bool
+	dynAll       map[string]int
 }
 
 func shortPkg(p string) string { return strings.TrimPrefix(p, modPrefix) }
@@ -341,6 +353,9 @@ func (a *analysis) reset() {
 	a.unclassified = map[string]bool{}
 	a.uncovered = map[string]int{}
 	a.errs = nil
+	a.litCallees = nil
+	a.addrTaken = map[string]bool{}
+	a.dynAll = map[string]int{}
 }
 
 func (a *analysis) walkAll() {
